@@ -2393,6 +2393,7 @@ impl<'a> Visitor<'a, '_, Error> for JSONValidator<'a> {
 
             jv.state.generic_rules = self.state.generic_rules.clone();
             jv.state.eval_generic_rule = Some(ident.ident);
+            jv.state.data_location.push_str(&self.state.data_location);
             jv.state.is_group_to_choice_enum = true;
             jv.state.is_multi_type_choice = self.state.is_multi_type_choice;
             jv.visit_rule(rule)?;
@@ -2464,6 +2465,7 @@ impl<'a> Visitor<'a, '_, Error> for JSONValidator<'a> {
 
             jv.state.generic_rules = self.state.generic_rules.clone();
             jv.state.eval_generic_rule = Some(ident.ident);
+            jv.state.data_location.push_str(&self.state.data_location);
             jv.state.is_multi_type_choice = self.state.is_multi_type_choice;
             jv.visit_rule(rule)?;
 
@@ -2527,6 +2529,7 @@ impl<'a> Visitor<'a, '_, Error> for JSONValidator<'a> {
 
             jv.state.generic_rules = self.state.generic_rules.clone();
             jv.state.eval_generic_rule = Some(ident.ident);
+            jv.state.data_location.push_str(&self.state.data_location);
             jv.state.is_multi_type_choice = self.state.is_multi_type_choice;
             jv.visit_rule(rule)?;
 
